@@ -28,6 +28,8 @@ def run(R):
     if not R.build():
         return
     R.lean(["C09"])
+    import hunted
+    hunted.run(R, "C09")
     quick = R.tier == "quick"
     rng = R.rng
     P = scen.Producers()
@@ -92,7 +94,12 @@ def run(R):
                 argv=[b"-b", b"-z", b".bak", b"-i", b"p.diff"], backup=(b"g", b"g.bak")),
            dict(name="backup-delete-then-recreate", tree=box.Tree({b"f": ("f", A_, 0o644), b"p.diff": ("f", emit.unified_text(gen.make_hunks(a, [], 3), b"f", b"/dev/null", b"", b"")
                 + emit.unified_text(gen.make_hunks([], b, 3), b"/dev/null", b"f", b"", b""), 0o644)}), argv=[b"-b", b"-i", b"p.diff"], backup=(b"f", b"f.orig")),
-           dict(name="git-rename-backup", tree=box.Tree({b"f": ("f", A_, 0o644), b"p.diff": ("f", ren, 0o644)}), argv=[b"-b", b"-p1", b"-i", b"p.diff"], rename=(b"f", b"g"))]
+           dict(name="git-rename-backup", tree=box.Tree({b"f": ("f", A_, 0o644), b"p.diff": ("f", ren, 0o644)}), argv=[b"-b", b"-p1", b"-i", b"p.diff"], rename=(b"f", b"g")),
+           # two files swapped by a pair of git renames (known finding D23: the second file is overwritten before its content is anywhere else)
+           dict(name="git-swap", tree=box.Tree({b"a": ("f", A_, 0o644), b"b": ("f", B_, 0o644), b"p.diff": ("f", emit.git_text([], b"a", b"b", "rename", similarity=100) + emit.git_text([], b"b", b"a", "rename", similarity=100), 0o644)}),
+                argv=[b"-p1", b"-i", b"p.diff"], renames=[(b"a", b"b", A_, A_), (b"b", b"a", B_, B_)], tag="rename.swap-kill-window"),
+           dict(name="git-swap-backup", tree=box.Tree({b"a": ("f", A_, 0o644), b"b": ("f", B_, 0o644), b"p.diff": ("f", emit.git_text([], b"a", b"b", "rename", similarity=100) + emit.git_text([], b"b", b"a", "rename", similarity=100), 0o644)}),
+                argv=[b"-b", b"-p1", b"-i", b"p.diff"], keep=[(b"a", A_), (b"b", B_)])]
     jobs, meta = [], []
     for c in kcs:
         r0, calls, nall = faults.baseline(R.cut, c)
@@ -115,6 +122,13 @@ def run(R):
             src, dst = c["rename"]
             if got.get(src) != A_ and got.get(dst) != B_:
                 R.oracle_fail(f"kill before system call {k}: the source of the rename no longer holds its original content and the destination is not completely written", data)
+        for src, dst, orig, new in c.get("renames", ()):
+            if got.get(src) != orig and got.get(dst) != new:
+                R.oracle_fail(f"kill before system call {k}: the source {src!r} of a rename no longer holds its original content and its destination {dst!r} is not completely written", data, tag=c.get("tag"))
+                break
+        for p_, orig in c.get("keep", ()):
+            if orig not in (got.get(p_), got.get(p_ + b".orig")):
+                R.oracle_fail(f"kill before system call {k} with --backup: the original content of {p_!r} is neither at its path nor at its backup path in full", data)
         if "backup" in c:
             p, bk = c["backup"]
             if got.get(p) != A_ and got.get(bk) != A_:
